@@ -183,7 +183,11 @@ def compare_runs(prop, A, B, steps, what, col, replay, cellfn, check_draws=True,
             # the twins went down different measurement branches: steering could not align them -> stop, no verdict
             col.add([INC(prop, "steering-mismatch", cell)], replay)
             return
-        if not a.get("valid", True) or not b.get("valid", True):
+        if a.get("valid", True) != b.get("valid", True):
+            # one run holds a physically invalid block (trace, norm, shape ...) where its twin holds a valid one
+            col.add([V(prop, False, "twin-validity-differs", f"step {i} {st['k']}: stored states valid={a.get('valid', True)} in one run, valid={b.get('valid', True)} in its twin", cell, **sig)], replay)
+            return
+        if not a.get("valid", True):
             col.add([INC(prop, "invalid-state-in-twin", cell)], replay)
             return
         ok, det = same_state(a, b, tol)
